@@ -43,7 +43,8 @@ def holds(name, cond, x):
 
 
 def gen_base(rng, name):
-    c = gen.dm_case(rng, nmax=8, mmax=5, nmin=2, mmin=2, modes=("tiny012", "tiny123", "int"), big=0.0, int_dtypes=0.4, label_kinds=False)
+    c = gen.dm_case(rng, nmax=14, mmax=5, nmin=2, mmin=2, modes=("tiny012", "tiny123", "int"), big=0.25, bigmin=9,
+                    int_dtypes=0.4, label_kinds=False, huge=0.02)
     if rng.random() < 0.06:
         gen.special_values(rng, c)      # signed zeros, subnormals, last-bit neighbours, 2**53, the largest floats
     m = len(c["criteria"])
